@@ -75,6 +75,11 @@ def run_case(acc, case):
     errors = {int(k): s for k, s in case['inject']}
     dev = dfusim.Device(variant, pattern_seed=5, errors=errors, stall_in_error=case['stall'], error_state=dfusim.DNLOAD_IDLE if case.get('idle_state') else dfusim.ERROR,
                         default_busy=[rng.choice([0, 1, 50])] * rng.choice([0, 1, 2]))
+    if rng.random() < 0.25:
+        # the failing operation keeps the device busy for a long time before it reports its error
+        k_slow = int(case['inject'][0][0])
+        dev.busy[k_slow] = [rng.choice([0, 1])] * rng.choice([99, 100, 101, 150, 400, 1200])
+        acc['ctr']['fault_runs_with_a_long_busy_phase'] += 1
     optimize = rng.random() < 0.3
     acc['ctr']['fault_runs_without_asserts'] += optimize
     r = dfusim.run(fw, dev, optimize=optimize)
@@ -88,6 +93,12 @@ def run_case(acc, case):
     core.see(acc, 'status_codes', case['inject'][0][1])
     core.see(acc, 'device_behaviour', 'stalls' if case['stall'] else 'keeps answering')
     if not dev.error_reports:
+        if dev.state in (dfusim.DNLOAD_SYNC, dfusim.DNBUSY) and dev.nops in errors and (r.done_printed or r.code == 0):
+            # the tool started the operation that was going to fail, stopped asking before the device had answered, and reported success
+            core.add_viol(acc, 'the tool announced success (exit %r, done printed: %s) while the device was still busy with %s of a %d-page image, '
+                          'which was about to fail with status %d: the outcome of the operation was never read' % (
+                              r.code, r.done_printed, step(dev.nops), npages, errors[dev.nops]), case, {'stdout_tail': r.stdout[-200:]})
+            return
         acc['ctr']['fault_not_reached'] += 1      # e.g. second fault after the tool already stopped
         return
     acc['ntkeys'].add(core.ckey(variant, npages, tuple(map(tuple, case['inject'])), case['stall'], case.get('idle_state')))
